@@ -16,22 +16,16 @@ theorem invT_init : InvT {} := by
   · intro e he; simp at he
   · intro o ho; simp at ho
 
-theorem invT_step (s : TState) (ev : TEvent) (inv : InvT s) : InvT (tstep s ev) := by
+theorem invT_step (s : TState) (ev : TEvent) (inv : InvT s)
+    (hok : ∀ site key owner d, ev = .insert site key owner d → owner ∉ s.ended ∧ owner ∉ s.cancelled) :
+    InvT (tstep s ev) := by
   cases ev with
   | insert site key owner deadline =>
     rw [tstep]
-    split
-    · exact inv
-    · rename_i hg
-      split
+    obtain ⟨hne, hnc⟩ := hok site key owner deadline rfl
+    · split
       · exact inv
-      · have hg' : s.ended.contains owner = false ∧ s.cancelled.contains owner = false := by
-          cases h1 : s.ended.contains owner <;> cases h2 : s.cancelled.contains owner <;> simp_all
-        have hne : owner ∉ s.ended := by
-          intro h; have := List.contains_iff_mem.mpr h; rw [hg'.1] at this; cases this
-        have hnc : owner ∉ s.cancelled := by
-          intro h; have := List.contains_iff_mem.mpr h; rw [hg'.2] at this; cases this
-        constructor
+      · constructor
         · intro e he hb
           rcases List.mem_cons.mp he with h | h
           · subst h; exact hne
@@ -98,12 +92,25 @@ theorem invT_step (s : TState) (ev : TEvent) (inv : InvT s) : InvT (tstep s ev) 
     · intro e he hl; exact inv.lv e (List.mem_filter.mp he).1 hl
     · exact inv.fe
 
-theorem invT_run (evs : List TEvent) : InvT (trun evs) := by
-  unfold trun
-  suffices ∀ s, InvT s → InvT (evs.foldl tstep s) from this {} invT_init
-  induction evs with
-  | nil => intro s hs; exact hs
-  | cons e es ih => intro s hs; exact ih _ (invT_step s e hs)
+theorem invT_fold : ∀ (evs : List TEvent) (s : TState), InvT s → WellTimed s evs → InvT (evs.foldl tstep s)
+  | [], s, hs, _ => hs
+  | e :: es, s, hs, hw => by
+    refine invT_fold es (tstep s e) (invT_step s e hs ?_) hw.2
+    intro site key owner d he
+    subst he
+    exact hw.1
+
+theorem invT_run (evs : List TEvent) (hw : WellTimed {} evs) : InvT (trun evs) :=
+  invT_fold evs {} invT_init hw
+
+theorem wellTimed_append : ∀ (evs : List TEvent) (s : TState) (e : TEvent), WellTimed s evs →
+    (∀ site key owner d, e = .insert site key owner d → False) → WellTimed s (evs ++ [e])
+  | [], s, e, _, hne => by
+    refine ⟨?_, trivial⟩
+    cases e with
+    | insert a b c d => exact (hne a b c d rfl).elim
+    | _ => trivial
+  | x :: xs, s, e, hw, hne => ⟨hw.1, wellTimed_append xs (tstep s x) e hw.2 hne⟩
 
 theorem trun_append (evs : List TEvent) (e : TEvent) : trun (evs ++ [e]) = tstep (trun evs) e := by
   simp [trun, List.foldl_append]
